@@ -486,7 +486,15 @@ fn report_mismatches(
             a.fields(&mut fl);
             absent = fl.iter().any(|x| part.absent.contains(x));
         }
-        let sig = if rc.probe == Probe::MvBucket {
+        let tophits_truncation = m.path.ends_with("tophits") && m.path.contains('>') && corpus.docs.len() > 2048;
+        let sig = if witness["variant"] == "postcard" && has_tophits_without_docvalues(&rc.aggs) {
+            // the misaligned stream can also deserialise "successfully" into different content
+            "serialisation/postcard-roundtrip-fails:top_hits-without-docvalue_fields".to_string()
+        } else if tophits_truncation {
+            // TopHitsSegmentCollector::prepare_max_bucket uses Vec::resize, which truncates the
+            // per-bucket state when a later flush of the parent carries a smaller max bucket id
+            "tophits-sub-aggregation/hits-lost-after-second-flush:prepare_max_bucket-resize-truncates".to_string()
+        } else if rc.probe == Probe::MvBucket {
             if alt_explains(f, &m.top, got, true, false) {
                 "multivalued-bucket-field/values-counted-instead-of-documents".to_string()
             } else {
@@ -494,10 +502,6 @@ fn report_mismatches(
             }
         } else if rc.probe != Probe::None {
             format!("{}{}:{}", probe_tag(rc.probe), m.path, m.what)
-        } else if m.path.ends_with("tophits") && m.path.contains('>') && corpus.docs.len() > 2048 && m.what.starts_with("hits") {
-            // TopHitsSegmentCollector::prepare_max_bucket uses Vec::resize, which truncates the
-            // per-bucket state when a later flush of the parent carries a smaller max bucket id
-            "tophits-sub-aggregation/hits-lost-after-second-flush:prepare_max_bucket-resize-truncates".to_string()
         } else if m.path.ends_with("xstats")
             && m.detail.ends_with("got null")
             && (m.what.starts_with("std_deviation") || m.what.starts_with("lower") || m.what.starts_with("upper"))
